@@ -12,18 +12,37 @@
   M  `Ctx.checkModel`           (Model/CheckModel.lean), port of the pinned heuristic `check_model`.
 
   The full-strength statement  `∀ M p, M.accepts p = true ↔ UPA Σ v11 p ∧ EDC T p`  is FALSE for the
-  pinned algorithm in both directions (known finding C15-F0): see
-  `checkModel_missed_counterexample`, `checkModel_false_alarm_counterexample`,
-  `checkModel_false_alarm_root_counterexample`, `checkModel_edc_missed_counterexample`,
-  `checkModel_indirect_member_missed_counterexample`, `checkModel_shared_particle_missed_counterexample`.
-  What is proved about M: `checkModel_refines_partial` (the equivalence holds on every flat choice of
-  plain element particles), and for all models: `checkModel_accepts_edc_direct` (an accepted model has no
-  two visited element particles with the same name and different types) and
-  `checkModel_v11_element_wildcard_never_error` (XSD 1.1: no UPA error between an element and a wildcard).
+  pinned algorithm in both directions (known finding C15-F0).  What is proved about M:
+
+  exact (accepts ⇔ UPA ∧ EDC), any size, both versions
+    * `checkModel_refines_partial`            every flat choice `{lo,hi}` of plain element particles
+    * `checkModel_refines_flat_seq_partial`   every flat sequence `{lo,1}` of plain element particles
+    * `checkModel_empty_root_exact`           every model whose root has `maxOccurs = 0` (former C15-F2)
+  exactness stops there — witnesses by `decide`, replayed on the real code on every run
+    * flat sequence that repeats              `checkModel_flat_seq_repeated_counterexample`  (a, a?){1,2}
+                                              `checkModel_missed_counterexample`             (a, a*)+
+    * one level of nesting, all groups {1,1}  `checkModel_seq_of_choices_counterexample`     (a, (c?|b), b)
+                                              `checkModel_choice_of_seqs_counterexample`     ((a,a) | a)
+  one direction, on ALL models (any nesting, wildcards, substitution groups, both versions)
+    * `checkModel_edc_error_sound`            an EDC refusal is a real EDC violation
+    * `checkModel_accepts_edc_direct`         an accepted model has no two visited same-named elements of
+                                              different types
+    * `checkModel_upa_error_overlap`          a UPA refusal names two different visited, overlapping,
+                                              type-consistent particles
+    * `checkModel_v11_element_wildcard_never_error`   XSD 1.1: never an element/wildcard pair
+  neither "refuses ⇒ violation" nor "accepts ⇒ deterministic" holds globally:
+    * refusals (kind UPA) are wrong from depth 3 on even when no group repeats
+                                              `checkModel_false_alarm_norepeat_counterexample` (((a)?,c),a)
+                                              `checkModel_false_alarm_counterexample`   (b,(b{1,2}){1,2},a)*
+    * acceptances are wrong: the four witnesses above, and for XSD 1.0 substitution groups
+      `checkModel_edc_missed_counterexample`, `checkModel_indirect_member_missed_counterexample`, and for
+      shared particle objects `checkModel_shared_particle_missed_counterexample` (C15-F3).
 -/
 import XsVerif.Lemmas.Upa
 import XsVerif.Lemmas.CheckModel
 import XsVerif.Lemmas.CheckModelFlat
+import XsVerif.Lemmas.CheckModelSeq
+import XsVerif.Lemmas.CheckModelErr
 
 namespace XsVerif.Props.C15
 open XsVerif XsVerif.CM XsVerif.Wildcard
@@ -225,6 +244,64 @@ theorem checkModel_accepts_edc_direct (M : Ctx) (p : Particle) (h : M.accepts p 
       (M.info v1).name = (M.info v2).name → (M.info v1).ty = (M.info v2).ty :=
   accepts_edc_direct M p h
 
+theorem tableCovers_spec {M : Ctx} {T : TypeTable} {p : Particle} (h : M.tableCovers T p = true) :
+    ∀ i ∈ (M.visited p).map (·.1), M.isElem i = true →
+      ((M.info i).name, (M.info i).ty) ∈ declsOf T p ∧ ∀ s ∈ (M.info i).subs, s ∈ declsOf T p := by
+  intro i hi he
+  simp only [Ctx.tableCovers, List.all_eq_true] at h
+  have := h i hi
+  simp only [he, Bool.not_true, Bool.false_or, Bool.and_eq_true, List.contains_iff_mem, List.all_eq_true] at this
+  exact this
+
+/-- **An EDC refusal is always right**: whenever the port of `check_model` raises "Element Declarations
+    Consistent violation" — any model, any nesting, wildcards and substitution groups included, both XSD
+    versions — the model does violate EDC: two declarations it contains (directly or through a
+    substitution group) have the same name and different types. -/
+theorem checkModel_edc_error_sound (M : Ctx) (T : TypeTable) (p : Particle) (hT : M.tableCovers T p = true) (e pe : Nat)
+    (h : (M.checkModel p).err = some (.edc e pe)) : ¬ EDC T p := by
+  obtain ⟨he, hpe, hc⟩ := checkModel_edc_pair M p e pe h
+  intro hedc
+  unfold Ctx.consistent at hc
+  by_cases hel : (M.isElem e && M.isElem pe) = true
+  · simp only [hel, Bool.not_true, Bool.false_eq_true, if_false] at hc
+    simp only [Bool.and_eq_true] at hel
+    obtain ⟨da, sa⟩ := tableCovers_spec hT e he hel.1
+    obtain ⟨db, sb⟩ := tableCovers_spec hT pe hpe hel.2
+    by_cases hv : M.v11 = true
+    · simp only [hv, Bool.not_true, Bool.false_eq_true, if_false] at hc
+      split at hc
+      · rename_i hn
+        have : (M.info e).ty = (M.info pe).ty := hedc _ da _ db (by simpa using hn)
+        simp [this] at hc
+      · split at hc
+        · rename_i e1 hf
+          have hm := sa e1 (List.mem_of_find?_eq_some hf)
+          have hn := List.find?_some hf
+          have : e1.2 = (M.info pe).ty := hedc _ hm _ db (by simpa using hn)
+          simp [this] at hc
+        · split at hc
+          · rename_i e2 hf
+            have hm := sb e2 (List.mem_of_find?_eq_some hf)
+            have hn := List.find?_some hf
+            have hn' : e2.1 = (M.info e).name := by simpa using hn
+            have : (M.info e).ty = e2.2 := hedc _ da _ hm hn'.symm
+            simp [this] at hc
+          · cases hc
+    · simp only [hv, Bool.not_false, if_true, Bool.or_eq_false_iff, bne_eq_false_iff_eq, beq_eq_false_iff_ne] at hc
+      exact hc.2 (hedc _ da _ db hc.1)
+  · simp [hel] at hc
+
+/-- **A UPA refusal always concerns two overlapping particles**: whenever the port of `check_model` raises a
+    UPA error (either message) — any model, any nesting, both XSD versions — the two particles it names are
+    two *different* particles that `check_model` visited (not below a `maxOccurs = 0` item), `is_overlap`
+    holds for them and `is_consistent` holds.  (The converse direction, that the competition is real, is
+    false from depth 3 on: `checkModel_false_alarm_norepeat_counterexample`.) -/
+theorem checkModel_upa_error_overlap (M : Ctx) (p : Particle) (pe e : Nat)
+    (h : (M.checkModel p).err = some (.upa pe e) ∨ (M.checkModel p).err = some (.sameGroup pe e)) :
+    pe ∈ (M.visited p).map (·.1) ∧ e ∈ (M.visited p).map (·.1) ∧ pe ≠ e ∧ M.overlap pe e = true ∧
+      M.consistent e pe = true :=
+  checkModel_upa_pair M p pe e h
+
 /-- **XSD 1.1 precedence clause**: in XSD 1.1 the pinned algorithm never refuses a model because of
     an element particle competing with a wildcard — whenever `check_model` raises a UPA error (either
     form), the two particles are of the same kind; element/wildcard competitions are recorded as
@@ -344,6 +421,83 @@ theorem checkModel_refines_partial {M : Ctx} {sigma : List QN} {T : TypeTable} {
       (by simpa using hl1) (by simpa using hl2)
     simp [competing, hid, hnoany]
 
+/-! ### M refines S on flat sequences with `maxOccurs = 1`
+
+  Proved: the full statement for every `sequence(e1 … en){lo,1}` (lo ≤ 1) of plain element particles with
+  arbitrary occurrence ranges (both XSD versions, no substitution groups, same name ⇒ same declaration),
+  any number of members.  The `paths` dict of `check_model` keeps only the *last* particle of every name;
+  `badLast_of_bad` shows that on this fragment nothing is lost by that.  The fragment cannot be widened to
+  `maxOccurs > 1` (`checkModel_flat_seq_repeated_counterexample`) nor to one level of nesting, even when every
+  group is `{1,1}` (`checkModel_seq_of_choices_counterexample`, `checkModel_choice_of_seqs_counterexample`). -/
+
+/-- guard of `checkModel_refines_flat_seq_partial` -/
+structure FragSeq15 (M : Ctx) (sigma : List QN) (T : TypeTable) (r lo : Nat) (items : List FItem) : Prop where
+  ctx : SeqCtx M r items
+  rootLo : lo ≤ 1
+  names : ∀ it ∈ items, it.name ∈ sigma
+  occ : ∀ it ∈ items, Rx.loLeHi it.lo it.hi = true
+  types : ∀ it ∈ items, T.decls it.id = [(it.name, (M.info it.id).ty)]
+
+theorem lang_flatSeq_iff {r lo : Nat} (hlo : lo ≤ 1) (items : List FItem) {w : List ASym} (hw : w ≠ []) :
+    Rx.Lang mm (flatSeq r lo (some 1) items).toRx w ↔ SeqW items w := by
+  rw [← lang_toSeq_iff]
+  simp only [flatSeq, Particle.toRx, Rx.Lang]
+  constructor
+  · rintro ⟨ws, rfl, _, hhi, hall⟩
+    simp only [Rx.leHi] at hhi
+    match ws, hhi, hall, hw with
+    | [], _, _, hw => simp at hw
+    | [x], _, hall, _ => simpa using hall x (by simp)
+    | _ :: _ :: _, hhi, _, _ => simp at hhi
+  · intro h
+    exact ⟨[w], by simp, by simpa using hlo, by simp [Rx.leHi], by simpa using h⟩
+
+/-- **The pinned `check_model` is exact on flat sequences that do not repeat**: for every sequence group
+    `{lo,1}` whose members are plain element particles (any number of members, any occurrence ranges, both
+    XSD versions; equal names refer to the same declaration), the port accepts the model iff it satisfies
+    Unique Particle Attribution and Element Declarations Consistent. -/
+theorem checkModel_refines_flat_seq_partial {M : Ctx} {sigma : List QN} {T : TypeTable} {r lo : Nat}
+    {items : List FItem} (h : FragSeq15 M sigma T r lo items) :
+    M.accepts (flatSeq r lo (some 1) items) = true ↔
+      UPA sigma M.v11 (flatSeq r lo (some 1) items) ∧ EDC T (flatSeq r lo (some 1) items) := by
+  rw [h.ctx.accepts_seq lo]
+  have hnoany : ∀ x, isAnyId (flatSeq r lo (some 1) items) x = false := by
+    intro x
+    simp only [isAnyId, flatSeq, Particle.leaves, leaves_mkParticles, List.any_eq_false, List.mem_map]
+    rintro l ⟨it, _, rfl⟩
+    simp [FItem.leaf, Leaf.isAny]
+  constructor
+  · intro hnb
+    refine ⟨?_, ?_⟩
+    · intro u v1 v2 a x y _ _ _ _ hcomp hl1 hl2
+      have hxy : x ≠ y := by
+        simp only [competing, Bool.and_eq_true, bne_iff_ne] at hcomp
+        exact hcomp.1
+      exact hnb (seqW_conflict items h.ctx.ids u v1 v2 a x y hxy
+        ((lang_flatSeq_iff h.rootLo items (by simp)).mp hl1) ((lang_flatSeq_iff h.rootLo items (by simp)).mp hl2))
+    · intro d1 h1 d2 h2 hn
+      simp only [declsOf, flatSeq, Particle.liveLeaves, liveLeaves_mkParticles, List.mem_flatMap] at h1 h2
+      simp only [show ((some 1 : Option Nat) == some 0) = false from rfl, Bool.false_eq_true, if_false,
+        List.mem_map] at h1 h2
+      obtain ⟨l1, ⟨it, hit, rfl⟩, hd1⟩ := h1
+      obtain ⟨l2, ⟨jt, hjt, rfl⟩, hd2⟩ := h2
+      have hi : it ∈ items := (List.mem_filter.mp hit).1
+      have hj : jt ∈ items := (List.mem_filter.mp hjt).1
+      simp only [FItem.leaf, h.types it hi, h.types jt hj, List.mem_singleton] at hd1 hd2
+      subst hd1 hd2
+      exact h.ctx.sameDecl it hi jt hj hn
+  · rintro ⟨hupa, _⟩ hbad
+    obtain ⟨u, v1, v2, a, x, y, hxy, w1, w2⟩ := badS_conflict h.occ h.ctx.ids hbad
+    have names : ∀ {w : List ASym}, SeqW items w → OverNames sigma w := by
+      intro w hw c hc
+      obtain ⟨it, hit, rfl⟩ := seqW_syms hw c hc
+      exact h.names it hit
+    have n1 := names w1
+    have n2 := names w2
+    refine hupa u v1 v2 a x y (fun c hc => n1 c (by simp [hc])) (fun c hc => n1 c (by simp [hc]))
+      (fun c hc => n2 c (by simp [hc])) (n1 (a, x) (by simp)) (by simp [competing, hxy, hnoany])
+      ((lang_flatSeq_iff h.rootLo items (by simp)).mpr w1) ((lang_flatSeq_iff h.rootLo items (by simp)).mpr w2)
+
 /-! ### M deviates from S (known finding C15-F0): concrete witnesses, replayed on the real code -/
 
 def qa : QN := ⟨"urn:t", "a"⟩
@@ -396,14 +550,42 @@ theorem checkModel_false_alarm_counterexample :
 def pRoot0 : Particle :=
   .group 0 .choice 0 (some 0) (.cons (.leaf (.elem 1 [qa]) 1 (some 1)) (.cons (.leaf (.elem 2 [qa]) 1 (some 1)) .nil))
 
-/-- The `maxOccurs = 0` skip is applied to nested particles only: a *root* group with `maxOccurs = 0`
-    (an empty content model) is still refused when its members overlap. -/
-theorem checkModel_false_alarm_root_counterexample :
-    (ctxOf false 3 pRoot0 iMissed).accepts pRoot0 = false ∧ UPA [qa] false pRoot0 := by
-  refine ⟨by decide, upa_of_isCert _ _ _ 10 (by decide)⟩
+theorem toRx_of_maxIsZero {p : Particle} (h : p.maxIsZero = true) : ∃ r lo, p.toRx = .rep r lo (some 0) := by
+  cases p with
+  | leaf l lo hi =>
+    simp only [Particle.maxIsZero, beq_iff_eq] at h
+    subst h
+    exact ⟨_, lo, rfl⟩
+  | group i k lo hi ps =>
+    simp only [Particle.maxIsZero, beq_iff_eq] at h
+    subst h
+    cases k
+    · exact ⟨_, lo, rfl⟩
+    · exact ⟨_, lo, rfl⟩
+    · exact ⟨_, lo, rfl⟩
 
-/-- with the proposed repair (notes/fixes/C15-root-maxoccurs-zero.patch) the same model is accepted -/
-example : ({ ctxOf false 3 pRoot0 iMissed with skipEmptyRoot := true }).accepts pRoot0 = true := by decide
+/-- **An empty content model is accepted, and rightly so** (former finding C15-F2, repaired by commit
+    3bbfd3c): for every model whose root has `maxOccurs = 0` — whatever is inside — the port of
+    `check_model` accepts, and the model satisfies UPA and EDC (its only word is the empty one). -/
+theorem checkModel_empty_root_exact (M : Ctx) (sigma : List QN) (T : TypeTable) (p : Particle)
+    (h : p.maxIsZero = true) : M.accepts p = true ∧ UPA sigma M.v11 p ∧ EDC T p := by
+  refine ⟨by simp [Ctx.accepts, Ctx.checkModel, Ctx.visited, h, Ctx.outer], ?_, ?_⟩
+  · intro u v1 v2 a x y _ _ _ _ _ hl1 _
+    obtain ⟨r, lo, hr⟩ := toRx_of_maxIsZero h
+    rw [hr] at hl1
+    obtain ⟨ws, hw, _, hhi, _⟩ := hl1
+    simp only [Rx.leHi, Nat.le_zero, List.length_eq_zero_iff] at hhi
+    subst hhi
+    simp at hw
+  · intro d1 h1
+    have : p.liveLeaves = [] := by
+      cases p with
+      | leaf l lo hi => simp only [Particle.maxIsZero] at h; simp [Particle.liveLeaves, h]
+      | group i k lo hi ps => simp only [Particle.maxIsZero] at h; simp [Particle.liveLeaves, h]
+    simp [declsOf, this] at h1
+
+/-- the hypothesis is met by `(a | a){0,0}`, which the pinned code refused before the repair -/
+example : pRoot0.maxIsZero = true ∧ (ctxOf false 3 pRoot0 iMissed).accepts pRoot0 = true := by decide
 
 /-- `(h, s)` with `s` a *local* declaration of another type than the global `s` that substitutes `h` -/
 def pEdc : Particle :=
@@ -460,6 +642,65 @@ theorem checkModel_shared_particle_missed_counterexample :
       ¬ UPA [qa] false pSharedS := by
   refine ⟨by decide, by decide, ?_⟩
   exact upa_witness_sound _ false pSharedS [] (qa, 2) (qa, 4) (by decide)
+
+/-! ### where exactness stops: boundary witnesses (each replayed on the real code) -/
+
+def qc : QN := ⟨"urn:t", "c"⟩
+def el (i : Nat) (q : QN) (lo : Nat := 1) (hi : Option Nat := some 1) : Particle := .leaf (.elem i [q]) lo hi
+def ei (i : Nat) (q : QN) : Nat × EInfo := (i, { name := q, ty := 0 })
+
+/-- `(a, a?){1,2}` -/
+def pSeqRep : Particle := .group 0 .seq 1 (some 2) (.cons (el 1 qa) (.cons (el 2 qa 0) .nil))
+
+/-- **Boundary of `checkModel_refines_flat_seq_partial`, root `maxOccurs > 1`**: the flat sequence
+    `(a, a?){1,2}` is accepted (the same-parent shortcut `pe.is_univocal() → continue`, models.py:166, ignores
+    that the parent repeats) although after `a` the next `a` belongs to the second particle or, in a new
+    iteration, to the first one.  Both XSD versions. -/
+theorem checkModel_flat_seq_repeated_counterexample (v11 : Bool) :
+    (ctxOf v11 3 pSeqRep [ei 1 qa, ei 2 qa]).accepts pSeqRep = true ∧ ¬ UPA [qa] v11 pSeqRep := by
+  refine ⟨by cases v11 <;> decide, ?_⟩
+  apply upa_witness_sound [qa] v11 pSeqRep [(qa, 1)] (qa, 2) (qa, 1)
+  cases v11 <;> decide
+
+/-- `(a, (c? | b), b)` — every group `{1,1}` -/
+def pSeqCh : Particle :=
+  .group 0 .seq 1 (some 1) (.cons (el 1 qa)
+    (.cons (.group 2 .choice 1 (some 1) (.cons (el 3 qc 0) (.cons (el 4 qb) .nil))) (.cons (el 5 qb) .nil)))
+
+/-- **Boundary, one level of nesting (sequence of choices, every group `{1,1}`)**: `(a, (c? | b), b)` is
+    accepted — a required particle before the choice makes `distinguishable_paths` ignore that the choice
+    is emptiable — although after `a` the child `b` belongs to the `b` of the choice or to the last `b`. -/
+theorem checkModel_seq_of_choices_counterexample (v11 : Bool) :
+    (ctxOf v11 6 pSeqCh [ei 1 qa, ei 3 qc, ei 4 qb, ei 5 qb]).accepts pSeqCh = true ∧
+      ¬ UPA [qa, qb, qc] v11 pSeqCh := by
+  refine ⟨by cases v11 <;> decide, ?_⟩
+  apply upa_witness_sound [qa, qb, qc] v11 pSeqCh [(qa, 1)] (qb, 4) (qb, 5)
+  cases v11 <;> decide
+
+/-- `((a, a) | a)` — every group `{1,1}` -/
+def pChSeq : Particle :=
+  .group 0 .choice 1 (some 1) (.cons (.group 1 .seq 1 (some 1) (.cons (el 2 qa) (.cons (el 3 qa) .nil))) (.cons (el 4 qa) .nil))
+
+/-- **Boundary, one level of nesting (choice of sequences, every group `{1,1}`)**: `((a, a) | a)` is
+    accepted because `paths` is a dict keyed by name (models.py:179): when the last `a` is visited the first
+    `a` has been replaced by the second one, which is distinguishable; the first and the last `a` both
+    start the model. -/
+theorem checkModel_choice_of_seqs_counterexample (v11 : Bool) :
+    (ctxOf v11 5 pChSeq [ei 2 qa, ei 3 qa, ei 4 qa]).accepts pChSeq = true ∧ ¬ UPA [qa] v11 pChSeq := by
+  refine ⟨by cases v11 <;> decide, ?_⟩
+  apply upa_witness_sound [qa] v11 pChSeq [] (qa, 2) (qa, 4)
+  cases v11 <;> decide
+
+/-- `(((a)?, c), a)` — no group repeats -/
+def pDeep : Particle :=
+  .group 0 .seq 1 (some 1) (.cons (.group 1 .seq 1 (some 1)
+    (.cons (.group 2 .seq 0 (some 1) (.cons (el 3 qa) .nil)) (.cons (el 4 qc) .nil))) (.cons (el 5 qa) .nil))
+
+/-- **Refusals are not sound even without any repetition, from depth 3 on**: `(((a)?, c), a)` is refused
+    (UPA error) although the required `c` separates the two `a`. -/
+theorem checkModel_false_alarm_norepeat_counterexample :
+    (ctxOf false 6 pDeep [ei 3 qa, ei 4 qc, ei 5 qa]).accepts pDeep = false ∧ UPA [qa, qc] false pDeep := by
+  refine ⟨by decide, upa_of_isCert _ _ _ 20 (by decide)⟩
 
 /-! ### non-vacuity -/
 
@@ -521,5 +762,31 @@ example : Frag15 (ctxOf false 4 (fragP (some 1)) fragInfos) [qa, qb] fragT 0 0 n
 /-- the hypotheses of `checkModel_accepts_edc_direct` are met by a model with two same-named elements -/
 example : (ctxOf false 4 pOk [(1, { name := qa, ty := 0 }), (2, { name := qb, ty := 0 }), (3, { name := qa, ty := 0 })]).accepts pOk = true ∧
     (1 ∈ ((ctxOf false 4 pOk []).visited pOk).map (·.1) ∧ 3 ∈ ((ctxOf false 4 pOk []).visited pOk).map (·.1)) := by decide
+
+/-- the hypothesis of `checkModel_upa_error_overlap` is met by `(((a)?, c), a)` (UPA error between particles 3 and 5) -/
+example : ((ctxOf false 6 pDeep [ei 3 qa, ei 4 qc, ei 5 qa]).checkModel pDeep).err = some (.upa 3 5) := by decide
+
+/-- the hypotheses of `checkModel_edc_error_sound` are met: XSD 1.1 refuses `(h, s:int)` with an EDC error and
+    the type table covers the port's data -/
+example : ((ctxOf true 3 pEdc iEdc).checkModel pEdc).err = some (.edc 2 1) ∧
+    (ctxOf true 3 pEdc iEdc).tableCovers [(1, [(qh, 0), (qs, 0)]), (2, [(qs, 1)])] pEdc = true := by decide
+
+/-- `(a?, b, a{2,2}, a+)?` is a member of the fragment of `checkModel_refines_flat_seq_partial` (guard holds) and
+    is accepted; `(a?, c?, a)` is a member that is refused -/
+def seqItems : List FItem := [⟨1, qa, 0, some 1⟩, ⟨2, qb, 1, some 1⟩, ⟨3, qa, 2, some 2⟩, ⟨4, qa, 1, none⟩]
+def seqInfos : List (Nat × EInfo) := [ei 1 qa, ei 2 qb, ei 3 qa, ei 4 qa]
+def seqT : TypeTable := [(1, [(qa, 0)]), (2, [(qb, 0)]), (3, [(qa, 0)]), (4, [(qa, 0)])]
+def seqP : Particle := flatSeq 0 0 (some 1) seqItems
+example (v11 : Bool) : FragSeq15 (ctxOf v11 5 seqP seqInfos) [qa, qb] seqT 0 0 seqItems := by
+  cases v11 <;>
+  exact ⟨⟨by decide, by decide, by decide, by decide, by decide, by decide, by decide, by decide, by decide,
+    by decide, by decide, by decide⟩, by decide, by decide, by decide, by decide⟩
+example : (ctxOf false 5 seqP seqInfos).accepts seqP = true := by decide
+def seqItems2 : List FItem := [⟨1, qa, 0, some 1⟩, ⟨2, qc, 0, some 1⟩, ⟨3, qa, 1, some 1⟩]
+def seqP2 : Particle := flatSeq 0 1 (some 1) seqItems2
+example : FragSeq15 (ctxOf false 4 seqP2 [ei 1 qa, ei 2 qc, ei 3 qa]) [qa, qc] [(1, [(qa, 0)]), (2, [(qc, 0)]), (3, [(qa, 0)])] 0 1 seqItems2 ∧
+    (ctxOf false 4 seqP2 [ei 1 qa, ei 2 qc, ei 3 qa]).accepts seqP2 = false :=
+  ⟨⟨⟨by decide, by decide, by decide, by decide, by decide, by decide, by decide, by decide, by decide,
+    by decide, by decide, by decide⟩, by decide, by decide, by decide, by decide⟩, by decide⟩
 
 end XsVerif.Props.C15
